@@ -17,7 +17,7 @@ class Gen(object):
         self.ident = ident
         self.adt = crate.adt_by_ident(ident)
         self.path = self.adt["path"]
-        self.tyid = crate.ty_by_name(self.path)
+        self.tyid = crate.ty_of_adt(self.path)
 
     def method(self, trait, name):
         return self.crate.method(self.path, trait, name)
